@@ -19,6 +19,13 @@ copied as they are (spec functions, lemmas, trusted prelude).  Directives:
       //@orpat-guard R<k>      rewrite every match arm `P1 | P2 | .. if G =>` whose Pi are constant paths (Verus rejects an
                                or-pattern combined with a guard) to `__m if (__m == P1 || __m == P2 ..) && (G) =>`; zero
                                occurrences are fine.  Assumes the Pi are integer constants (matching == equality).
+      //@optmap-stmt R<k>      rewrite every STATEMENT `RECV.map(|x| EXPR);` (result discarded) to `if let Some(x) = RECV { EXPR; }`
+                               (Verus rejects closures that capture `&mut`).  Zero occurrences are fine.  Assumes RECV is an Option
+                               (anything else no longer type-checks: exit 2); a `.map(|x| ..)` that is not a whole statement is left alone.
+      //@castfn R<k> <ty>..    rewrite every `OPERAND as <ty>` (ty in f64 f32 u32 ..; OPERAND = a path / field / call / parenthesised
+                               expression) to `OPERAND.cast_<ty>()`, a trait-dispatched prelude shim whose contract names the cast as
+                               an uninterpreted FUNCTION of its argument (Verus itself leaves float casts unspecified).  Zero
+                               occurrences are fine; an operand behind a unary operator stops the unit (exit 2).
       //@spec                  following lines: requires/ensures/decreases clauses (before the body brace)
       //@loop <n>              following lines: invariant/decreases clauses of the n-th loop (textual order, 1-based)
       //@before "<anchor>" [#k] / //@after "<anchor>" [#k]   following lines: ghost text spliced before/after the
@@ -58,6 +65,8 @@ class Block:
         self.subst_opt = set()   # (rid, from) of the //@subst-opt entries
         self.r3 = []          # loop ordinals
         self.orpat = None     # rewrite id of //@orpat-guard
+        self.optmap = None    # rewrite id of //@optmap-stmt
+        self.castfn = None    # (rewrite id, [types]) of //@castfn
         self.spec = None
         self.loops = {}       # n -> text
         self.anchored = []    # (where, anchor, k, text)
@@ -183,6 +192,64 @@ def build_item(repo, blk, cache):
             add(T0 + g_end, 0, ")", blk.orpat)
             cnto += 1
         if cnto: rewrites.append({"id": blk.orpat, "from": "P1 | P2 .. if G =>", "to": "__m if (__m == P1 || ..) && (G) =>", "occurrences": cnto})
+    if blk.optmap and item.kind == "fn":
+        # R13: statement-position `RECV.map(|x| EXPR);` -> `if let Some(x) = RECV { EXPR; }`  (token based)
+        tk = item.toks
+        cnt13 = 0
+        for i in range(len(tk) - 6):
+            if not (tk[i].text == "." and tk[i+1].text == "map" and tk[i+2].text == "(" and tk[i+3].text == "|"
+                    and tk[i+4].kind == "ident" and tk[i+5].text == "|"): continue
+            close = rustlex.match_close(tk, i + 2)
+            if close + 1 >= len(tk) or tk[close+1].text != ";": continue          # value is used: not a statement
+            # receiver: back to the previous `;` `{` `}` at depth 0
+            depth, j = 0, i - 1
+            while j >= 0:
+                tx = tk[j].text if tk[j].kind == "punct" else None
+                if tx in (")", "]"): depth += 1
+                elif tx in ("(", "["): depth -= 1
+                elif depth == 0 and tx in (";", "{", "}"): break
+                j -= 1
+            start = j + 1
+            if start >= i: continue
+            if tk[start].kind == "ident" and tk[start].text in ("let", "return", "break", "match", "if", "while", "for", "else"): continue
+            if any(t.kind == "punct" and t.text in ("=", "=>") for t in tk[start:i]): continue
+            add(tk[start].start, 0, "if let Some(%s) = " % tk[i+4].text, blk.optmap)
+            add(tk[i].start, tk[i+5].end - tk[i].start, " {", blk.optmap)
+            add(tk[close].start, tk[close+1].end - tk[close].start, "; }", blk.optmap)
+            cnt13 += 1
+        if cnt13: rewrites.append({"id": blk.optmap, "from": "RECV.map(|x| EXPR);", "to": "if let Some(x) = RECV { EXPR; }", "occurrences": cnt13})
+    if blk.castfn and item.kind == "fn":
+        # R15: `OPERAND as <ty>` -> `OPERAND.cast_<ty>()`  (token based; the shim is resolved by the operand's type)
+        rid15, tys15 = blk.castfn
+        tk = item.toks
+        cnt15 = 0
+        for i in range(1, len(tk) - 1):
+            if not (tk[i].kind == "ident" and tk[i].text == "as" and tk[i+1].kind == "ident" and tk[i+1].text in tys15): continue
+            j = i - 1          # last token of the operand
+            k = j
+            while True:
+                t = tk[k]
+                if t.kind == "punct" and t.text in (")", "]"):
+                    depth = 0
+                    while k >= 0:
+                        if tk[k].kind == "punct" and tk[k].text in (")", "]"): depth += 1
+                        elif tk[k].kind == "punct" and tk[k].text in ("(", "["):
+                            depth -= 1
+                            if depth == 0: break
+                        k -= 1
+                    if k < 0: raise ToolError("UNSUPPORTED //@castfn: unbalanced operand in %s" % blk.path)
+                    if k > 0 and (tk[k-1].kind == "ident" and tk[k-1].text not in ("as", "in", "return", "if", "match", "else")): k -= 1; continue   # call / index: keep going left
+                    break
+                elif t.kind in ("ident", "num"):
+                    if k > 0 and tk[k-1].kind == "punct" and tk[k-1].text in (".", "::") and k > 1: k -= 2; continue
+                    break
+                else:
+                    raise ToolError("UNSUPPORTED //@castfn: operand of `as %s` in %s" % (tk[i+1].text, blk.path))
+            if k > 0 and tk[k-1].kind == "punct" and tk[k-1].text in ("-", "!", "*", "&"):
+                raise ToolError("UNSUPPORTED //@castfn: operand of `as %s` behind operator `%s` in %s" % (tk[i+1].text, tk[k-1].text, blk.path))
+            add(tk[j].end, tk[i+1].end - tk[j].end, ".cast_%s()" % tk[i+1].text, rid15)
+            cnt15 += 1
+        if cnt15: rewrites.append({"id": rid15, "from": "OPERAND as <ty>", "to": "OPERAND.cast_<ty>()", "types": tys15, "occurrences": cnt15})
     if blk.ret:
         if not parts or not parts["ret"]: raise ToolError("//@ret on item without return type: %s" % blk.path)
         a, b = parts["ret"]
@@ -334,6 +401,11 @@ def generate(repo, unit_tmpl):
                         if d == "subst-opt": blk.subst_opt.add((rid, frm))
                     elif d == "r3": blk.r3.append(int(rest))
                     elif d == "orpat-guard": blk.orpat = rest or "R11"
+                    elif d == "optmap-stmt": blk.optmap = rest or "R13"
+                    elif d == "castfn":
+                        ws = rest.split()
+                        if len(ws) < 2: raise ToolError("%s:%d malformed //@castfn (id and at least one type)" % (tf, n2))
+                        blk.castfn = (ws[0], ws[1:])
                     elif d == "spec": cur = ("spec",)
                     elif d == "loop": cur = ("loop", int(rest))
                     elif d in ("before", "after"):
